@@ -129,6 +129,19 @@ CHECKS = {
         design_ref='§7 C15',
         note=NOTE_COMMON + 'TODAY is compared with the system clock (before/after), not by TLC. Results outside 1900-03-01..9999-12-31, two-digit years and the Jan 31 -> Feb 28 month-count ambiguity are out of scope.',
         technique='TLA+ calendar oracle validated by TLC against stepwise definitions, TLC-enumerated grids replayed, trace validation'),
+    'C17': dict(
+        category='model_checking',
+        text=('TLC checks the substring algebra of the statement on the text oracle (XlText, texts as sequences of character codes): '
+              'LeftMidRebuild, LeftLen, RightMirror, MidBounds, NegativeIsError, SEARCH against a naive definition (plain, *, ?, ~ escapes, start '
+              'range), VALUE inverting the text form, for every text up to length L over a mixed-case alphabet with wildcard characters x counts / '
+              'positions -1..L+2 x every find text up to length 2; it enumerates LEFT/RIGHT/MID rows for every text, SEARCH for every (pattern, text) x '
+              'start, &/CONCATENATE operand vectors (text, integer, decimal, date, blank) and VALUE on a numeric grid. Binding: every row is '
+              'replayed on the real pipeline by overrides, samples as literals (wildcard literals as SEARCH patterns included) and through the '
+              'public file path; random longer texts with regex metacharacters are recomputed by TLC from recorded events (Trace_C17), incl. the '
+              'rebuild identity.'),
+        design_ref='§7 C17',
+        note=NOTE_COMMON + 'An empty text delivered as the library\'s blank is accepted as equal to ""; a ~ not followed by ? * ~, SEARCH inside an empty text and non-text first arguments are out of scope.',
+        technique='TLA+ text oracle with TLC-checked substring algebra, TLC-enumerated rows replayed, trace validation'),
 }
 
 NOT_APPLICABLE = {}
